@@ -30,6 +30,7 @@ type c12Case struct {
 	W        []string `json:"w"`
 	Toks     []stok   `json:"toks"`
 	OnlyBody bool     `json:"onlybody"`
+	Expect   []string `json:"expect"`
 	Variant  int      `json:"variant"`
 }
 
@@ -38,6 +39,7 @@ type C12Line struct {
 	Kind     string   `json:"kind"`
 	Body     []string `json:"body"`
 	OnlyBody bool     `json:"onlybody"`
+	Expect   []string `json:"expect"`
 	Text     string   `json:"text"`
 	Out      []string `json:"out"`
 	S        string   `json:"s"`
@@ -174,7 +176,10 @@ func c12Scan(args []string) error {
 			d := *c
 			d.Variant = vi
 			d.Toks = nil
-			line := &C12Line{Src: fmt.Sprintf("%s/v%d", src, vi), Kind: c.Kind, Body: c.Body, OnlyBody: c.OnlyBody, Out: []string{}, Desc: string(mustJSON(d))}
+			line := &C12Line{Src: fmt.Sprintf("%s/v%d", src, vi), Kind: c.Kind, Body: c.Body, OnlyBody: c.OnlyBody, Expect: c.Expect, Out: []string{}, Desc: string(mustJSON(d))}
+			if line.Expect == nil {
+				line.Expect = []string{}
+			}
 			if line.Body == nil {
 				line.Body = []string{}
 			}
